@@ -191,8 +191,10 @@ class C11(PoolScenario):
                     # a fill of a live tree with valid data must not raise at all
                     raise self.violation(exc_site(oa.exc)[0], what, "exception:%s" % type(oa.exc).__name__,
                                          "%s raised on original and clone alike: %s" % (what, oa.describe()), si)
-                # the failed operation may have changed both sides half-way: stop using the pair
+                # the failed operation may have changed both sides half-way: stop using the pair - and every clone taken of
+                # either side before (thorough-tier false alarm: the replica's own clones were still treated as its mirrors)
                 ma["version"] = ma.get("version", 0) + 1
+                mb["version"] = mb.get("version", 0) + 1000003
                 return "pair", set()
             if what == "iadd_other":
                 om = w.meta.get(st["other"], {}).get("mut", True)
